@@ -436,6 +436,10 @@ def opDiscovery (j : Json) : Except String Json := do
     let path ← J.natss! x "path"
     let t ← treeOf (← x.getObjVal? "tree")
     return (path, t))
+  let pkgs ← (← J.arr! j "roots").toList.mapM (fun (x : Json) => do
+    match x.getObjVal? "pkg" with
+    | .ok v => (← v.getArr?).toList.mapM (fun (y : Json) => do (← y.getArr?).toList.mapM (fun z => z.getNat?))
+    | .error _ => return ([] : List (List Nat)))
   let ident ← J.natss! j "identifier"
   let tp ← J.natss! j "testsPat"
   let tfp ← J.natss! j "testFilePat"
@@ -451,8 +455,8 @@ def opDiscovery (j : Json) : Except String Json := do
   let fIgf : List Nat → Bool := fun n => igf.contains n
   let e : Ztr.Discovery.Env := { identifier := fIdent, testsPat := fTp, testFilePat := fTfp, ignoreDir := fIgn, ignoreFolders := fIgf, usecompiled := usec }
   let files := Ztr.Discovery.findTestFiles e roots
-  let mods := Ztr.Discovery.importedModules e (fun m => accepted.contains m) roots
-  let allMods := files.map (fun p => Ztr.Discovery.moduleName e (roots.map (·.1)) p)
+  let mods := Ztr.Discovery.importedModules e (fun m => accepted.contains m) roots pkgs
+  let allMods := files.map (fun p => Ztr.Discovery.moduleName e roots pkgs p)
   return Json.mkObj [("files", Json.arr (files.map jNatss).toArray),
     ("imported", Json.arr (mods.map jNatss).toArray),
     ("modules", Json.arr (allMods.map (fun m => match m with | some x => jNatss x | none => Json.null)).toArray)]
